@@ -207,7 +207,7 @@ class FSModule(ExtensionModule):
     @typed_pos_args('fs.replace_suffix', (str, File, CustomTarget, CustomTargetIndex, BuildTarget), str)
     def replace_suffix(self, state: ModuleState, args: T.Tuple[FilePathTypes, str], kwargs: T.Dict[str, T.Any]) -> str:
         if args[1] and not args[1].startswith('.'):
-            raise ValueError(f"Invalid suffix {args[1]!r}")
+            raise InvalidArguments(f"Invalid suffix {args[1]!r}")
         path = self._obj_to_pathstr('fs.replace_suffix', args[0], state)
         return os.path.splitext(path)[0] + args[1]
 
